@@ -149,6 +149,22 @@ def check_case(case, workers=None, info=None):
         info['fires'] = bool(r1)
     if s1 != serialise(r2):
         bad('not-repeatable', f'{tag}: second call returned {serialise(r2)}, first {s1}')
+    # a function of its arguments only: the session-wide language setting is not one of them
+    from depccg.lang import get_global_language, set_global_language_to
+    cur = get_global_language()
+    try:
+        for session in ('ja', 'en'):
+            set_global_language_to(session)
+            try:
+                r_s = serialise(g.apply_binary_rules(to_cat(mx), to_cat(my)))
+            except Exception as ex:
+                r_s = f'{type(ex).__name__}: {ex}'
+            if r_s != s1:
+                bad('depends-on-session-language', f'{tag}: with the global language set to {session!r} the result is '
+                    f'{r_s}, otherwise {s1}')
+                break
+    finally:
+        set_global_language_to(cur)
     if model_of(x) != mx or model_of(y) != my:
         bad('mutates', f'{tag}: arguments changed')
     if lang == 'en':
